@@ -60,14 +60,32 @@ def have_strace():
         return False
 
 
-def run_driver(form, cache, out, names=None, strace=None, timeout=600):
+def failing_cc(root, mode):
+    """A C compiler wrapper that FAILS (the build is not killed, the tool-chain reports an error): 'enospc' = the
+    compile step fails like a full disk, 'ldfail' = compiling works but linking fails."""
+    path = os.path.join(root, 'cc-%s.sh' % mode)
+    if not os.path.exists(path):
+        with open(path, 'w') as f:
+            if mode == 'enospc':
+                f.write('#!/bin/sh\necho "cc1: fatal error: error writing to /tmp/ccXXXX.s: No space left on device" >&2\nexit 1\n')
+            else:
+                f.write('#!/bin/sh\nfor a in "$@"; do if [ "$a" = "-shared" ]; then echo "collect2: fatal error: ld terminated '
+                        'with signal 9 [Killed]" >&2; exit 1; fi; done\nexec gcc "$@"\n')
+        os.chmod(path, 0o755)
+    return path
+
+
+def run_driver(form, cache, out, names=None, strace=None, timeout=600, extra_env=None):
     """-> (returncode, tail of output).  returncode < 0 or 128+n: killed by signal n."""
     cmd = [sys.executable, DRIVER, 'request', form, out]
     if names:
         cmd += ['--names', names]
     if strace:
         cmd = ['strace', '-f', '-qq'] + strace + cmd
-    p = subprocess.run(cmd, env=_env(cache), stdout=subprocess.PIPE, stderr=subprocess.STDOUT, timeout=timeout,
+    e = _env(cache)
+    if extra_env:
+        e.update(extra_env)
+    p = subprocess.run(cmd, env=e, stdout=subprocess.PIPE, stderr=subprocess.STDOUT, timeout=timeout,
                        start_new_session=True)
     return p.returncode, p.stdout.decode(errors='replace')[-1200:]
 
@@ -257,6 +275,26 @@ def _run(ctx, ref_dir, root):
         f = ctx.ch.stream('fault')
         for j in range(ncrash):
             names = 'vs%d' % j
+            if f.chance(35):
+                # the build FAILS without being killed: the C compiler (or the link step) reports an error, e.g. a full
+                # disk or an OOM-killed cc1; the request may raise, the NEXT request must succeed
+                mode = f.pick(['enospc', 'ldfail'])
+                cc = failing_cc(root, mode)
+                rc, tail = run_driver(form, cache, os.path.join(root, 'crash%d.npy' % j), names=names,
+                                      extra_env={'CC': cc, 'LDSHARED': cc + ' -shared'})
+                ctx.count('fault.toolchain-fails.%s' % mode)
+                ctx.log(['toolchain-fails', form, mode, 'rc=%d' % rc])
+                s = sig_of(rc)
+                if s in (signal.SIGBUS, signal.SIGSEGV):
+                    ctx.violation('interpreter-crash', 'building process died with signal %d: %s' % (s, tail[-300:]),
+                                  sig('crash', phase=1))
+                    return
+                if rc == 0:
+                    ctx.count('fault.toolchain-fails.not-reached')       # e.g. the form was already in the cache
+                    completed.update(final_entries(cache))
+                else:
+                    ctx.count('fault.toolchain-fails.fired')
+                continue
             if f.chance(70) and cal['writes']:
                 paths = sorted(cal['writes'])
                 # stratify over artefact classes
